@@ -125,3 +125,9 @@ Example invisible_nonvacuous :
   run_history fx_new (init 512 12) [w_throw; w_ok; w_error; w_call; w_decl; w_ok] =
     [RErr true; ROk; RErr false; RErr true; RErr true; ROk].
 Proof. exact invisible_nonvacuous_lemma. Qed.
+
+(* the model's prediction for "a field initialiser throws during a host [[Construct]]": the error is returned with no
+   frame pushed and nothing left on the value stack (function_construct's step order is part of the model: ANew / RHostNew) *)
+Example init_throw_example :
+  run_entry fx_new (init 512 1024) w_init_throw = (init 512 1024, RErr true).
+Proof. exact init_throw_example_lemma. Qed.
